@@ -15,7 +15,7 @@ RULE = ("enums with 0-8 variants x kinds x 0-3 tuple fields of pairwise distinct
 ASSUMPTIONS = ["method names are pairwise distinct (the corpus avoids identifiers that snake-case to the same name)"]
 
 IDS = ["Red", "GreenApple", "HTTPServer", "Utf8String", "X", "Abc_def", "A1b2", "XMLHttpRequest2", "Id", "IOError", "Blue2Go", "V10",
-       "Http2_Proxy", "Z9", "QRCode", "Wi5Fi77"]
+       "Http2_Proxy", "Z9", "QRCode", "Wi5Fi77", "r#type", "r#Match", "r#loop_Forever2"]
 TYSETS = [[], ["u8"], ["String"], ["i32", "bool"], ["String", "u8", "usize"], ["bool", "i32"], ["Option<u8>"]]
 
 
